@@ -1,9 +1,60 @@
 #![allow(dead_code)]
 mod codec_cases;
 mod pipes;
+mod sock;
 mod util;
 
+use std::alloc::{GlobalAlloc, Layout, System};
 use std::io::{BufRead, Write};
+use std::sync::atomic::{AtomicUsize, Ordering};
+
+/// Counting allocator: live bytes, peak, largest single request (for the C03 memory observations).
+pub struct Counting;
+pub static LIVE: AtomicUsize = AtomicUsize::new(0);
+pub static PEAK: AtomicUsize = AtomicUsize::new(0);
+pub static MAXREQ: AtomicUsize = AtomicUsize::new(0);
+pub static PANICS: AtomicUsize = AtomicUsize::new(0);
+unsafe impl GlobalAlloc for Counting {
+    unsafe fn alloc(&self, l: Layout) -> *mut u8 {
+        let p = System.alloc(l);
+        if !p.is_null() {
+            let v = LIVE.fetch_add(l.size(), Ordering::Relaxed) + l.size();
+            PEAK.fetch_max(v, Ordering::Relaxed);
+            MAXREQ.fetch_max(l.size(), Ordering::Relaxed);
+        }
+        p
+    }
+    unsafe fn dealloc(&self, p: *mut u8, l: Layout) {
+        System.dealloc(p, l);
+        LIVE.fetch_sub(l.size(), Ordering::Relaxed);
+    }
+    unsafe fn realloc(&self, p: *mut u8, l: Layout, new: usize) -> *mut u8 {
+        let q = System.realloc(p, l, new);
+        if !q.is_null() {
+            if new >= l.size() {
+                let v = LIVE.fetch_add(new - l.size(), Ordering::Relaxed) + (new - l.size());
+                PEAK.fetch_max(v, Ordering::Relaxed);
+                MAXREQ.fetch_max(new, Ordering::Relaxed);
+            } else {
+                LIVE.fetch_sub(l.size() - new, Ordering::Relaxed);
+            }
+        }
+        q
+    }
+}
+#[global_allocator]
+static GLOBAL: Counting = Counting;
+
+/// (peak growth over the live level at reset, largest single request) since the last reset
+pub fn mem_reset() -> usize {
+    let live = LIVE.load(Ordering::Relaxed);
+    PEAK.store(live, Ordering::Relaxed);
+    MAXREQ.store(0, Ordering::Relaxed);
+    live
+}
+pub fn mem_report(base: usize) -> (usize, usize) {
+    (PEAK.load(Ordering::Relaxed).saturating_sub(base), MAXREQ.load(Ordering::Relaxed))
+}
 use std::panic::{catch_unwind, AssertUnwindSafe};
 
 fn run_case(kind: &str, args: &[&str]) -> String {
@@ -13,6 +64,9 @@ fn run_case(kind: &str, args: &[&str]) -> String {
         "dec" => codec_cases::dec(args),
         "greet" => codec_cases::greet(args),
         "ready" => codec_cases::ready(args),
+        "sock" => sock::run(args),
+        "compat" => codec_cases::compat(args),
+        "stypename" => codec_cases::stypename(args),
         _ => format!("unknown-kind {}", kind),
     }
 }
@@ -24,7 +78,9 @@ fn main() {
         std::process::exit(2);
     }
     // quiet panics: a panic is an observation
-    std::panic::set_hook(Box::new(|_| {}));
+    std::panic::set_hook(Box::new(|_| {
+        PANICS.fetch_add(1, Ordering::SeqCst);
+    }));
     let start: usize = argv.get(2).map(|x| x.parse().unwrap()).unwrap_or(0);
     let f = std::fs::File::open(&argv[1]).expect("case file");
     let out = std::io::stdout();
@@ -47,10 +103,14 @@ fn main() {
                     o.flush().unwrap();
                 }
                 let res = catch_unwind(AssertUnwindSafe(|| run_case(kind, &toks[2..])));
-                let obs = match res {
+                let mut obs = match res {
                     Ok(s) => s,
                     Err(_) => "panic".to_string(),
                 };
+                let np = PANICS.swap(0, Ordering::SeqCst);
+                if np > 0 && obs != "panic" {
+                    obs.push_str(&format!(" PANICS={}", np));
+                }
                 let mut o = out.lock();
                 writeln!(o, "{} {}", id, obs).unwrap();
                 o.flush().unwrap();
